@@ -229,7 +229,12 @@ func VerifC06_History() {
 // and leaves the times of later valid messages undisturbed.
 func VerifC06_Illegal() {
 	k := 3
-	c06EpochLo, c06EpochHi = 0, 0
+	// quick: the weeks around New Year (the week start computation crosses a
+	// month and a year there); thorough: an ordinary week as well
+	c06EpochLo, c06EpochHi = 1, 1
+	if verifTier() > 0 {
+		c06EpochLo = 0
+	}
 	t := c06StartTime()
 	h := New(verifTimeOf(c06S0+t), slog.LevelInfo)
 	verifWitness("reached")
